@@ -486,6 +486,10 @@ def gen_map_node(rng: random.Random) -> dict:
     has_bcast = rng.random() < 0.6
     if has_bcast:
         params.append(["c", None])
+    if rng.random() < 0.5:
+        # two-step inner graph: `pre` produces an inner-graph output before `a` can fail
+        inner_nodes.append(_fn_node("pre", [["x", None]], ["px"], {"b": "sum", "k": 0}))
+        params = [["px", None]] + params[1:]
     inner_nodes.append(_fn_node("a", params, ["r"], body))
     if branchy:
         inner_nodes.append({"name": "gt", "kind": "ifelse", "params": [["x", None]], "targets": ["pb", "ps"], "body": {"b": "lt", "k": 2}})
@@ -506,7 +510,8 @@ def gen_map_node(rng: random.Random) -> dict:
     out_ren = [["r", "rr"]] if rng.random() < 0.3 else []
     gn = {"name": "mapper", "kind": "graph", "inner": 0, "inRen": ren, "outRen": out_ren,
           "mapOver": [cur[p] for p in mapped], "mapMode": mode, "errMode": err}
-    outs = ["rr" if out_ren else "r"] + (["b", "s"] if branchy else [])
+    outs = ["rr" if out_ren else "r"] + (["b", "s"] if branchy else []) + (["px"] if any(n["name"] == "pre" for n in inner_nodes) else [])
+    rng.shuffle(gn["mapOver"])
     consumer = _fn_node("after", [[outs[0], None]], ["fin"], {"b": "tag", "t": "after"})
     outer = {"name": "g1", "nodes": [gn, consumer], "bound": []}
     L = rng.randint(0, 4)
@@ -516,6 +521,7 @@ def gen_map_node(rng: random.Random) -> dict:
         values.append([cur[p], {"l": [rng.randint(0, 4) for _ in range(ln)]}])
     if has_bcast:
         values.append([cur["c"], rand_value(rng)])
+    rng.shuffle(values)
     c = {"program": [inner, outer], "values": values}
     return with_cfg(rng, c, outputs=outs + ["fin"])
 
